@@ -100,6 +100,8 @@ func pricingText(name string) string {
 		return fmt.Sprintf(`{"price":"1stake","promotions_by_time":[{"start_time":"%s","end_time":"%s","discount":"0.5"}]}`, ts(2), ts(4))
 	case "p4t":
 		return fmt.Sprintf(`{"price":"4stake","promotions_by_time":[{"start_time":"%s","end_time":"%s","discount":"0.5"}]}`, ts(1), ts(3))
+	case "p4tr": // two disjoint windows listed newest first (rejected by the unmodified module)
+		return fmt.Sprintf(`{"price":"4stake","promotions_by_time":[{"start_time":"%s","end_time":"%s","discount":"0.9"},{"start_time":"%s","end_time":"%s","discount":"0.5"}]}`, ts(5), ts(7), ts(1), ts(3))
 	case "p5":
 		return `{"price":"5stake"}`
 	case "p20":
